@@ -83,8 +83,24 @@ pub fn run_one(case: &Case, tag: &str) -> props::Outcome {
         .expect("spawn case thread");
     // watchdog: a case that neither finishes nor trips the scheduler's own detectors is a
     // harness problem (or a hang the simulator could not attribute); never wait forever
-    let limit: u64 = std::env::var("FJSIM_CASE_TIMEOUT").ok().and_then(|s| s.parse().ok()).unwrap_or(180);
+    let is_thr = case.engine == case::Engine::Thr;
+    let limit: u64 = std::env::var("FJSIM_CASE_TIMEOUT").ok().and_then(|s| s.parse().ok()).unwrap_or(if is_thr { 60 } else { 180 });
     if let Err(std::sync::mpsc::RecvTimeoutError::Timeout) = rx.recv_timeout(std::time::Duration::from_secs(limit)) {
+        if is_thr {
+            // Every wait on a fjall-level lock goes through a probe and every sleep through a stall
+            // hook, so the scheduler reports blocked threads itself ("no-progress"). A scheduled
+            // run that does not end means a thread waits IN THE KERNEL for a lock whose owner is
+            // parked - a lock acquired in an order (or held over a region) the hooks do not
+            // cover: the threads dead-lock. The process cannot go on (threads leaked, scheduler
+            // state stuck): report and abort; the driver attributes the abort to this case.
+            println!(
+                "no-progress: the scheduled run did not finish within {limit} s: a thread is blocked in the kernel on a lock held by a parked thread (lock order / lock scope outside the probed sites): dead-lock; scheduler: {}",
+                sched::describe()
+            );
+            use std::io::Write;
+            let _ = std::io::stdout().flush();
+            std::process::abort();
+        }
         let mut o = props::Outcome::ok(exec::Stats::default(), 0);
         o.harness_error = Some(format!("case did not finish within {limit} s (thread leaked)"));
         std::mem::forget(h);
